@@ -119,7 +119,17 @@ GenProj(k) ==
 \* every single-path mask on every sparse message: the exhaustive core
 ExhaustiveProj == { [k |-> "proj", n |-> 0, msg |-> x, mask |-> Mask(ps)] : x \in Msgs1, ps \in Singles \cup Corrupt }
 
-GenInit == c \in { GenUpd(k) : k \in 1..NCases } \cup { GenProj(k) : k \in 1..NCases } \cup ExhaustiveProj
+(* Field NAMES: paths are sequences of segments, so "covered by" is decided segment by segment -- never on the *)
+(* dotted text, where one field's name can be the beginning of a sibling's.  A second, tiny schema whose names *)
+(* are like that (sc-api's Occupancy: state / state_change_time[.seconds] / people_count), every mask pair.   *)
+NamePaths == { <<"st">>, <<"stct">>, <<"stct", "s">>, <<"pc">> }
+NameLeaves == { <<"st">>, <<"stct", "s">>, <<"pc">> }
+RECURSIVE SetToSeqM(_)
+SetToSeqM(S) == IF S = {} THEN <<>> ELSE LET x == CHOOSE y \in S : TRUE IN <<x>> \o SetToSeqM(S \ {x})
+GenNames == { [k |-> "names", n |-> 0, M |-> Mask(SetToSeqM(m)), W |-> Mask(SetToSeqM(w))]
+              : m \in (SUBSET NamePaths) \ {{}}, w \in SUBSET NamePaths }
+
+GenInit == c \in { GenUpd(k) : k \in 1..NCases } \cup { GenProj(k) : k \in 1..NCases } \cup ExhaustiveProj \cup GenNames
 GenNext == UNCHANGED c
 EmitCase == PrintT("CASE " \o ToJson(c))
 
@@ -166,7 +176,17 @@ ProjFails(t) ==
            /\ \E q \in LeafPaths : LeafVal(t.res, q) # LeafVal(Empty, q) /\ ~\E p \in PathSet(mask) : p # <<>> /\ p[1] = q[1]
         THEN {"unnamed-field-selected"} ELSE {})
 
-Fails(t) == IF t.k = "upd" THEN UpdFails(t) ELSE ProjFails(t)
+\* old / post of a names observation: [st, stcts, pc] integers
+NameVal(x, q) == IF q = <<"st">> THEN x.st ELSE IF q = <<"pc">> THEN x.pc ELSE x.stcts
+NameFails(t) ==
+  LET M == NormMask(t.M)  W == NormMask(t.W)  K == PathSet(M) IN
+  (IF t.panic # "" THEN {"panic"} ELSE {})
+  \cup (IF (\E p \in K : ClearlyReadOnly(p, W)) /\ t.err # "InvalidArgument" /\ t.panic = "" THEN {"bad-mask-accepted"} ELSE {})
+  \cup (IF (\A p \in K : ClearlyWritable(p, W)) /\ t.err # "OK" /\ t.panic = "" THEN {"good-mask-rejected"} ELSE {})
+  \cup (IF t.err # "OK" /\ t.post # t.old THEN {"failed-write-changed-store"} ELSE {})
+  \cup (IF t.err = "OK" /\ \E q \in NameLeaves : ~InScope(q, M, W) /\ NameVal(t.post, q) # NameVal(t.old, q) THEN {"frame"} ELSE {})
+
+Fails(t) == IF t.k = "upd" THEN UpdFails(t) ELSE IF t.k = "names" THEN NameFails(t) ELSE ProjFails(t)
 BadLines == { k \in 1..Len(Obs) : Fails(Obs[k]) # {} }
 TraceInit == c = 0
 TraceNext == UNCHANGED c
